@@ -65,6 +65,11 @@ func genC19(t *rapid.T) c19Case {
 		if rapid.IntRange(0, 2).Draw(t, "default") == 0 {
 			opt = LookupSpec{}
 		}
+		// small pages beyond the first: what they hold depends on everything that sorts before
+		// them, so any write can change them
+		if rapid.IntRange(0, 3).Draw(t, "small-page") == 0 {
+			opt = LookupSpec{Max: rapid.IntRange(1, 2).Draw(t, "spmax"), Offset: rapid.IntRange(1, 3).Draw(t, "spoff")}
+		}
 		// options the wrapped store rejects: the error is part of the answer, on every repetition
 		switch rapid.IntRange(0, 11).Draw(t, "rejected-options") {
 		case 0:
@@ -119,6 +124,10 @@ func genC19(t *rapid.T) c19Case {
 		case k <= 16:
 			op.Op = "exist"
 		default:
+			op.Op = "read"
+		}
+		// a write is often followed at once by reads (what was memoized before it must be gone)
+		if i > 0 && (c.Ops[i-1].Op == "rem" || c.Ops[i-1].Op == "add") && rapid.IntRange(0, 1).Draw(t, "read-after-write") == 0 {
 			op.Op = "read"
 		}
 		op.G = rapid.IntRange(0, len(c19Names)-1).Draw(t, "g")
